@@ -139,6 +139,10 @@ def run(ctx):
     # documents split with XInclude, handed over as path string (with and without a base URL) and as pathlib.Path: both
     # handlers, the object of the inline document
     c09.xinclude_text(ctx)
+    # large documents read in chunks: both handlers, every streamed source kind, against the document itself
+    from . import c11
+
+    c11.chunk_boundaries(ctx)
     ctx.exhaustive = True
     # writer behaviours on both real writers
     res = ctx.tlc("MC_Writer", "run.cfg", workers=1, extra_files={"run.cfg": writer_cfg("gen", depth=2, events=5, attrs=1)},
